@@ -38,7 +38,7 @@ meta = {"property": a.prop, "id": name, "ran": []}
 
 def sh(cmd, cwd=None, env=None, timeout=1800):
     t0 = time.time()
-    r = subprocess.run(cmd, cwd=cwd, env=env, capture_output=True, text=True, timeout=timeout, shell=isinstance(cmd, str))
+    r = subprocess.run(cmd, cwd=cwd, env=env, capture_output=True, text=True, errors="replace", timeout=timeout, shell=isinstance(cmd, str))
     meta["ran"].append({"cmd": cmd if isinstance(cmd, str) else " ".join(cmd), "rc": r.returncode, "s": round(time.time() - t0, 1)})
     return r
 
@@ -64,7 +64,7 @@ print("demo clean rc=%s mutated rc=%s suite: %s" % (meta["demo_clean_rc"], meta.
 
 # ---- run our checks with the patch applied to a scratch worktree at /repo's HEAD (VERIF_REPO points the checks at it;
 # equivalent to `git -C /repo apply` + run + `git -C /repo checkout -- .`, but leaves /repo free for other work)
-RUN = "/tmp/wt_seedrun"
+RUN = os.environ.get("SEEDRUN", "/tmp/wt_seedrun")
 head = sh("git -C /repo rev-parse HEAD").stdout.strip()
 if not os.path.isdir(RUN):
     sh("git -C /repo worktree add -q --detach %s %s" % (RUN, head))
